@@ -177,7 +177,7 @@ func gen(t *common.Trace, e common.Engine, r *common.Rng, thorough bool) {
 	ncases := 300
 	nops := 400
 	if thorough {
-		ncases = 6000
+		ncases = 2500
 		nops = 1500
 	}
 	// concurrent readers against one writer (C05)
